@@ -39,7 +39,7 @@ def all_contracts():
 def prove_property(pid, tier="quick", log=print):
     t00 = time.time()
     loader = Loader()
-    timeout = 10000 if tier == "quick" else 60000
+    timeout = 30000 if tier == "quick" else 120000
     report = {"property_id": pid, "tier": tier, "functions": [], "obligations": [], "lemmas": [],
               "undecided": [], "vacuity": [], "faults": [], "repo_root": loader.root}
     mods = [importlib.import_module(m) for m in contract_modules(pid)]
